@@ -1224,7 +1224,8 @@ class ExprGen:
         a = self.num("float", budget - 2, nonnull)
         if not a.cols:
             return a
-        return self.mk(f"{_w(a, P_ATOM)}.around(1)", "float", a.null, P_ATOM, [a])
+        k = self.rng.choice([1, 1, 1, 0, 2, -1])      # -1: to tens (numpy.around / (x * 10.0**k).round() / 10.0**k)
+        return self.mk(f"{_w(a, P_ATOM)}.around({k})", "float", a.null, P_ATOM, [a])
 
     def n_transc(self, budget, nonnull):
         r = self.rng
